@@ -101,6 +101,8 @@ let handle (toks : string list) : (string * string * string) option =
           let s = string_of_res show (arr_index_spec n len Z0 elsz) in
           let (m, s) = if watched then
               let evil = zs (String.sub wrapk 6 (String.length wrapk - 6)) in
+              (* the model of an index held in sandbox memory: the reads of the cell return n, then evil, evil, ... *)
+              let m = string_of_res show (arr_index_cell k (fun i -> if i = O then n else evil) len Z0 elsz) in
               (m ^ " ||| " ^ string_of_res show (arr_index k evil len Z0 elsz),
                s ^ " ||| " ^ string_of_res show (arr_index_spec evil len Z0 elsz))
             else (m, s) in
@@ -242,7 +244,7 @@ let parse_pop cfg (tok : string) : pop =
   | ["f"; x] -> OpField (List.nth (offsets (lab cfg) ps_fields) (field_index x))
   | ["e"; i] -> OpElem (zs i, z_of_int 4, z_of_int 4)
   | ["c"] -> OpCast
-  | ["l"; rep] -> OpLoadPtr (zs rep)
+  | ["l"; rep] | ["lc"; rep; _] -> OpLoadPtr (zs rep)     (* lc: the cell is read by a sandbox cast applied directly to it; a cast keeps the value *)
   | ["g"; rep] | ["cb"; rep] -> OpFromGuest (zs rep)
   | ["m"; count; elk; ret] -> OpMalloc (zs count, z_of_int (app_elsz elk), zs ret)
   | ["r"; a] | ["u"; a] -> OpAssignRaw (zs a)
